@@ -526,6 +526,11 @@ func ruleOldFirst(c *Ctx, rule string, typesNames []string) {
 		}
 		allowed := func(from, to *ssa.BasicBlock) bool {
 			for f := range fi.edgeFacts(from, to) {
+				// the accessor for the old value's entry failed (an error result of a call made on the old
+				// value is non-nil): nothing could be removed, and that failure is what the caller gets
+				if f.Kind == "nonnil" && f.Pol && isErrorType(f.V.Type()) && valueReaches(f.V, old, 0) {
+					return true
+				}
 				if f.Kind != "true" {
 					continue
 				}
@@ -1240,8 +1245,23 @@ func ruleFkExists(c *Ctx, rule string) {
 	fi := ComputeFacts(gb)
 	errBucket := p.Func("boltz", "ErrBucket")
 	okNil := false
+	notFound := p.Func("boltz", "NewNotFoundError")
 	for _, r := range returnsOf(gb) {
+		// the failure is handed back as an error-carrying bucket, or as an error result next to a nil bucket
+		fails := false
 		if call, ok := r.Results[0].(*ssa.Call); ok && isCallTo(call, errBucket) {
+			fails = true
+		}
+		if ei := errorResultIndex(gb.Signature); ei >= 0 && ei < len(r.Results) {
+			v := r.Results[ei]
+			if mi, isMI := v.(*ssa.MakeInterface); isMI {
+				v = mi.X
+			}
+			if call, ok := v.(*ssa.Call); ok && isCallTo(call, notFound) {
+				fails = true
+			}
+		}
+		if fails {
 			if fi.HoldsWhere(r.Block(), func(f Fact) bool {
 				k, isCall := f.V.(*ssa.Call)
 				return f.Kind == "nonnil" && !f.Pol && isCall && invokeNamed(k, "GetEntityBucket")
@@ -1259,7 +1279,11 @@ func ruleFkExists(c *Ctx, rule string) {
 		for _, call := range callsIn(fn) {
 			if isCallTo(call, setEntry) {
 				n++
-				src, isCall := call.Common().Args[0].(*ssa.Call)
+				recv := call.Common().Args[0]
+				if ex, isEx := recv.(*ssa.Extract); isEx && ex.Index == 0 {
+					recv = ex.Tuple
+				}
+				src, isCall := recv.(*ssa.Call)
 				if !isCall || !isCallTo(src, gb.Object().(*types.Func)) {
 					ok = false
 				}
@@ -1365,51 +1389,64 @@ func ruleFkDelete(c *Ctx, rule string) {
 		}
 		c.Check(escapes == "", rule, FnName(fd)+": refusal on every path", p.Pos(fd.Pos()), "once a referrer was found no path returns without recording the reference-exists error", "although the back-reference cursor was found valid, a return ("+escapes+") is reachable without the reference-exists error being recorded: a referenced entity can be deleted and its referrers keep the dangling id")
 	}
-	// cascade constraint
+	// cascade constraint: the hook and the handlers it dispatches to (per cascade type: in place, through a
+	// constant dispatch table, or in helpers handed the constraint and the context)
 	fc := p.SSAFunc(p.Method("boltz", "fkDeleteCascadeConstraint", "ProcessBeforeDelete"))
-	c.Analysed(FnName(fc))
-	fi2 := ComputeFacts(fc)
-	loops := loopsOf(fc)
+	scope := dispatchScope(fc)
 	okNone := false
-	for _, call := range callsIn(fc) {
-		if invokeNamed(call, "SetError") {
-			if src, isCall := call.Common().Args[len(call.Common().Args)-1].(*ssa.Call); isCall && isCallTo(src, refErr) {
-				if fi2.HoldsWhere(call.Block(), func(f Fact) bool {
-					k, isCall := f.V.(*ssa.Call)
-					return f.Kind == "true" && f.Pol && isCall && invokeNamed(k, "IsValid")
-				}) {
-					okNone = true
+	for _, g := range scope {
+		c.Analysed(FnName(g))
+		gfi := ComputeFacts(g)
+		for _, call := range callsIn(g) {
+			if invokeNamed(call, "SetError") {
+				if src, isCall := call.Common().Args[len(call.Common().Args)-1].(*ssa.Call); isCall && isCallTo(src, refErr) {
+					if gfi.HoldsWhere(call.Block(), func(f Fact) bool {
+						k, isCall := f.V.(*ssa.Call)
+						return f.Kind == "true" && f.Pol && isCall && invokeNamed(k, "IsValid")
+					}) {
+						okNone = true
+					}
 				}
 			}
 		}
 	}
 	// the refusal looks at the cursor exactly as IterateValidIds positioned it: no Next/Seek in between
 	if okNone {
-		for _, call := range callsIn(fc) {
-			if !(invokeNamed(call, "Next") || invokeNamed(call, "Seek")) || !call.Common().IsInvoke() {
-				continue
+		for _, g := range scope {
+			gloops := loopsOf(g)
+			for _, call := range callsIn(g) {
+				if !(invokeNamed(call, "Next") || invokeNamed(call, "Seek")) || !call.Common().IsInvoke() {
+					continue
+				}
+				if innermostLoop(gloops, call.Block()) != nil {
+					continue // the cascade loop's own re-seek
+				}
+				okNone = false
 			}
-			if innermostLoop(loops, call.Block()) != nil {
-				continue // the cascade loop's own re-seek
-			}
-			okNone = false
 		}
 	}
 	c.Check(okNone, rule, FnName(fc)+": CascadeNone restricts", p.Pos(fc.Pos()), "with referrers present and cascade none, a reference-exists error is recorded (first referrer as found by the filter, no skipping)", "CascadeNone does not refuse the delete of a referenced entity for every referrer (the referrer cursor is moved before the test, or no error is recorded)")
 	// cascade delete loop: DeleteById inside a loop driven by the live cursor's IsValid, re-seek after delete
-	var dels []ssa.CallInstruction
-	for _, call := range callsIn(fc) {
-		if invokeNamed(call, "DeleteById") {
-			dels = append(dels, call)
+	type delSite struct {
+		fn   *ssa.Function
+		call ssa.CallInstruction
+	}
+	var dels []delSite
+	for _, g := range scope {
+		for _, call := range callsIn(g) {
+			if invokeNamed(call, "DeleteById") {
+				dels = append(dels, delSite{g, call})
+			}
 		}
 	}
 	okLoop, why := len(dels) > 0, "no DeleteById of the referrers"
 	// every loop that deletes referrers must satisfy the shape (a second, "optimised" cascade path included)
-	for _, del := range dels {
+	for _, ds := range dels {
 		if !okLoop {
 			break
 		}
-		l := innermostLoop(loops, del.Block())
+		del := ds.call
+		l := innermostLoop(loopsOf(ds.fn), del.Block())
 		if l == nil {
 			okLoop, why = false, "referrers are not deleted in a loop"
 		} else {
@@ -1452,16 +1489,90 @@ func ruleFkDelete(c *Ctx, rule string) {
 			} else if !reseek {
 				okLoop, why = false, "the cursor is not re-sought after deleting the current row (bolt skips the next row)"
 			}
-			// error -> return
-			if okLoop {
-				if !fi2.HoldsWhere(blockAfterTrueEdge(del), func(f Fact) bool { return true }) {
-					_ = 0
-				}
-			}
 		}
 	}
 	c.Check(okLoop, rule, FnName(fc)+": cascade loop", p.Pos(fc.Pos()), "referrers are deleted one by one from the live cursor, re-seeking after each delete", why)
 	c.Floor(rule, 3)
+}
+
+// dispatchScope: fn together with the functions it hands its work to: entries of package-level constant
+// dispatch tables it looks up and calls, and same-package functions it calls with its own parameters
+// (two levels).
+func dispatchScope(fn *ssa.Function) []*ssa.Function {
+	seen := map[*ssa.Function]bool{fn: true}
+	out := []*ssa.Function{fn}
+	var visit func(f *ssa.Function, depth int)
+	add := func(g *ssa.Function, depth int) {
+		if g == nil || g.Blocks == nil || seen[g] {
+			return
+		}
+		if g.Pkg != fn.Pkg {
+			// a method-expression thunk has no package of its own
+			if g.Pkg != nil || g.Object() == nil || g.Object().Pkg() != fn.Pkg.Pkg {
+				return
+			}
+		}
+		seen[g] = true
+		out = append(out, g)
+		visit(g, depth+1)
+	}
+	visit = func(f *ssa.Function, depth int) {
+		if depth > 2 {
+			return
+		}
+		for _, call := range callsIn(f) {
+			cc := call.Common()
+			if cc.IsInvoke() {
+				continue
+			}
+			if sc := cc.StaticCallee(); sc != nil {
+				// a helper handed this function's own parameters (the constraint, the context)
+				own := false
+				for _, a := range cc.Args {
+					if _, isPrm := a.(*ssa.Parameter); isPrm {
+						own = true
+					}
+				}
+				if own && sc.Object() != nil && (!sc.Object().Exported() || f.Pkg == nil) {
+					add(sc, depth)
+				}
+				continue
+			}
+			// a function taken from a constant table
+			fv := cc.Value
+			if ex, isEx := fv.(*ssa.Extract); isEx {
+				fv = ex.Tuple
+			}
+			lk, isLk := fv.(*ssa.Lookup)
+			if !isLk {
+				continue
+			}
+			ld, isLd := lk.X.(*ssa.UnOp)
+			if !isLd {
+				continue
+			}
+			g, isG := ld.X.(*ssa.Global)
+			if !isG {
+				continue
+			}
+			entries, okT := constTable(g)
+			if !okT {
+				continue
+			}
+			for _, e := range entries {
+				switch ev := e.val.(type) {
+				case *ssa.Function:
+					add(ev, depth)
+				case *ssa.MakeClosure:
+					if ef, isF := ev.Fn.(*ssa.Function); isF {
+						add(ef, depth)
+					}
+				}
+			}
+		}
+	}
+	visit(fn, 0)
+	return out
 }
 
 func blockAfterTrueEdge(in ssa.Instruction) *ssa.BasicBlock { return in.Block() }
